@@ -32,16 +32,18 @@ ARGS = [PYG + "_rhs_arguments", PYG + "_scheme_arguments", CG + "_rhs_arguments"
 PROPS = {
     "C01": dict(functions=EXPR + [B + "rhs"] + SORTED + UNPACK + PY_PRINT + [TP + "method"], lemmas=L.L1 + L.L2 + L.STAB),
     "C02": dict(functions=[CG + "_rhs_arguments", CG + "_scheme_arguments", G + "gotran2c.get_code", B + "rhs", B + "monitor_values",
-                           PP + "_print_Float"] + C_TMPL, lemmas=[]),
+                           PP + "_print_Float", "gotranx.codegen.c.GotranCCodePrinter._print_Piecewise",
+                           "gotranx.codegen.c.GotranCCodePrinter._print_Float", "gotranx.codegen.c.bool_to_int"] + C_TMPL, lemmas=[]),
     "C03": dict(functions=[B + "monitor_values", B + "missing_values", B + "rhs", B + "scheme", TJ + "method",
-                           PP + "_print_And", PP + "_print_Or", PP + "_print_Not", PP + "_print_sign"], lemmas=L.C13L),
+                           PP + "_print_And", PP + "_print_Or", PP + "_print_Not", PP + "_print_sign",
+                           "gotranx.codegen.jax.JaxPrinter._print_Assignment"], lemmas=L.C13L),
     "C04": dict(functions=INDEX + [B + "rhs", B + "monitor_values", B + "scheme"] + SCHEMES + SORTED + ACCESSORS + UNPACK + ARGS
                 + PY_TMPL + C_TMPL + [TJ + "method", T + "states_matrix"], lemmas=L.L1 + L.STAB),
-    "C05": dict(functions=[S + "explicit_euler", S + "get_scheme", B + "scheme", U + "add_schemes"] + UNPACK, lemmas=L.L1),
+    "C05": dict(functions=[S + "explicit_euler", S + "get_scheme", B + "scheme", U + "add_schemes"] + UNPACK + SORTED, lemmas=L.L1),
     "C06": dict(functions=[S + "generalized_rush_larsen", S + "fraction_numerator_is_nonzero", T + "Conditional", S + "get_scheme",
-                           B + "scheme", U + "add_schemes"], lemmas=L.STAB + L.C06L),
+                           B + "scheme", U + "add_schemes"] + SORTED, lemmas=L.STAB + L.C06L),
     "C07": dict(functions=[S + "hybrid_rush_larsen", S + "generalized_rush_larsen", S + "explicit_euler", S + "get_scheme",
-                           U + "add_schemes", B + "scheme"], lemmas=[]),
+                           U + "add_schemes", B + "scheme"] + SORTED, lemmas=[]),
     "C08": dict(functions=["gotranx.transformer.TreeToODE.ode", "gotranx.transformer._same_definition", M + "sort_assignments",
                            X + "build_expression.expr2symbols", M + "check_components"]
                 + ["gotranx.ode_component.BaseComponent." + n for n in ("is_complete", "states_with_derivatives", "states_without_derivatives", "find_state")]
@@ -63,7 +65,7 @@ PROPS = {
     "C18": dict(functions=[G + "ode2py", G + "ode2c", G + "convert", G + "gotran2py.main", G + "gotran2c.main",
                            G + "gotran2py.get_code", G + "gotran2c.get_code", U + "add_schemes", U + "validate_scheme"], lemmas=[]),
     "C19": dict(functions=[B + "is_reserved_name", "gotranx.codegen.jax.JaxCodeGenerator.is_reserved_name", B + "_check_reserved_names",
-                           B + "__init__", B + "_shape_info#names", TP + "method", TJ + "method", TC + "method"] + ARGS, lemmas=L.C19L),
+                           B + "__init__", B + "_shape_info#names", TP + "method", TJ + "method", TC + "method", "gotranx.codegen.c.bool_to_int"] + ARGS, lemmas=L.C19L),
     "C20": dict(functions=[T + "states_matrix", T + "rhs_matrix", T + "jacobi_matrix", O + "sorted_states",
                            O + "sorted_state_derivatives"], lemmas=L.L1),
 }
